@@ -2,6 +2,7 @@ package main
 
 import (
 	"strconv"
+	"sync"
 	"fmt"
 	"go/ast"
 	"go/parser"
@@ -31,6 +32,8 @@ type World struct {
 	Traces     []*Trace
 	GhostSorts map[string]ghostInfo
 	errors     []string
+	dropped    map[string]bool // assumption clauses dropped because they no longer fit the source (softFail)
+	droppedMu  sync.Mutex
 	allTypes   map[string]*types.Package // path -> package (all reachable)
 	byName     map[string][]*types.Package
 	axiomsDone map[*Unit]map[string]bool
@@ -87,7 +90,7 @@ func LoadWorld(repoDir, verifDir string, patterns ...string) (*World, error) {
 	}
 	prog, _ := ssautil.Packages(pkgs, ssa.InstantiateGenerics|ssa.GlobalDebug)
 	prog.Build()
-	w := &World{Prog: prog, Pkgs: pkgs, Fset: prog.Fset, RepoDir: repoDir, VerifDir: verifDir, funcIDs: map[*ssa.Function]int{},
+	w := &World{Prog: prog, Pkgs: pkgs, Fset: prog.Fset, RepoDir: repoDir, VerifDir: verifDir, funcIDs: map[*ssa.Function]int{}, dropped: map[string]bool{},
 		GhostSorts: map[string]ghostInfo{}, allTypes: map[string]*types.Package{}, byName: map[string][]*types.Package{}, axiomsDone: map[*Unit]map[string]bool{}}
 	for _, p := range pkgs {
 		if p.Module != nil {
@@ -462,6 +465,10 @@ func (w *World) resolveType(pkg *types.Package, x ast.Expr) types.Type {
 func (w *World) tryResolveType(pkg *types.Package, x ast.Expr) types.Type {
 	switch n := x.(type) {
 	case *ast.Ident:
+		if n.Name == "funcval" {
+			// any function value (spec heads cannot spell function types)
+			return types.NewSignatureType(nil, nil, nil, nil, nil, false)
+		}
 		if pkg != nil {
 			if tn, ok := pkg.Scope().Lookup(n.Name).(*types.TypeName); ok {
 				return tn.Type()
@@ -581,7 +588,7 @@ func (w *World) pureAppN(u *Unit, c *Contract, callee *ssa.Function, sig *types.
 func (w *World) addTrace(t *Trace) {
 	w.Traces = append(w.Traces, t)
 	// ghost sorts from the target
-	var recvT, retT, argT, arg2T types.Type
+	var recvT, retT, ret1T, argT, arg2T types.Type
 	p := w.pkgByPath(t.Pkg)
 	if p != nil || t.Kind == "extern" {
 		switch t.Kind {
@@ -596,6 +603,9 @@ func (w *World) addTrace(t *Trace) {
 							r := msig.Results()
 							if r.Len() > 0 {
 								retT = r.At(0).Type()
+							}
+							if r.Len() > 1 {
+								ret1T = r.At(1).Type()
 							}
 							if msig.Params().Len() > 0 {
 								argT = msig.Params().At(0).Type()
@@ -631,6 +641,9 @@ func (w *World) addTrace(t *Trace) {
 				if sig.Results().Len() > 0 {
 					retT = sig.Results().At(0).Type()
 				}
+				if sig.Results().Len() > 1 {
+					ret1T = sig.Results().At(1).Type()
+				}
 			}
 		case "func":
 			c := &Contract{Kind: "func", Key: t.Key, Pkg: t.Pkg}
@@ -646,6 +659,9 @@ func (w *World) addTrace(t *Trace) {
 				}
 				if fn.Signature.Results().Len() > 0 {
 					retT = fn.Signature.Results().At(0).Type()
+				}
+				if fn.Signature.Results().Len() > 1 {
+					ret1T = fn.Signature.Results().At(1).Type()
 				}
 			}
 		}
@@ -667,6 +683,10 @@ func (w *World) addTrace(t *Trace) {
 	}
 	if arg2T != nil {
 		w.GhostSorts["bseq"+t.Tag] = ghostInfo{types.NewArray(arg2T, 0)}
+	}
+	if ret1T != nil {
+		// ret1<Tag>: second result of the last traced call (typically the error)
+		w.GhostSorts["ret1"+t.Tag] = ghostInfo{ret1T}
 	}
 	if retT != nil {
 		w.GhostSorts["ret"+t.Tag] = ghostInfo{retT}
@@ -750,6 +770,10 @@ func (f *Frame) recordTrace(ti *traceInfo, st *state, args []Val, rs []Val) {
 			u.scalar("$g."+nm+tag, si.sort(u))
 			u.hset(st.heap, "$g."+nm+tag, sto(u.hget(st.heap, "$g."+nm+tag), u.hget(st.heap, "$g.n"+tag), args[i].T))
 		}
+	}
+	if gi, ok := u.W.GhostSorts["ret1"+tag]; ok && len(rs) > 1 {
+		u.scalar("$g.ret1"+tag, gi.sort(u))
+		u.hset(st.heap, "$g.ret1"+tag, rs[1].T)
 	}
 	if gi, ok := u.W.GhostSorts["ret"+tag]; ok && len(rs) > 0 {
 		u.scalar("$g.ret"+tag, gi.sort(u))
